@@ -41,6 +41,9 @@ def applicable_faults(prog, kinds=None, extra=()):
     for idx in range(len(prog['steps']) + 1):
         for k in ('op_discard', 'op_force', 'op_raise', 'op_interrupt'):
             out.append({'kind': k, 'at': idx})
+        if 'exits' in extra:
+            for k in ('op_exit0', 'op_exit', 'op_ctrl_c'):
+                out.append({'kind': k, 'at': idx})
     for mode in ('raises', 'junk_none', 'junk_int', 'junk_list', 'ok'):
         out.append({'kind': 'extractor', 'mode': mode})
     for mode in ('junk_keys', 'junk_pairs', 'junk_str'):
@@ -56,7 +59,10 @@ def applicable_faults(prog, kinds=None, extra=()):
 
 
 INSERTS = {'op_discard': {'t': 'discard'}, 'op_force': {'t': 'force'}, 'op_raise': {'t': 'raise_now'},
-           'op_interrupt': {'t': 'interrupt_now'}}
+           'op_interrupt': {'t': 'interrupt_now'},
+           # the interpreter's own interrupt-style exceptions: a clean exit (code 0 / none) and Ctrl-C
+           'op_exit0': {'t': 'interrupt_now', 'exc': 'SystemExit0'}, 'op_exit': {'t': 'interrupt_now', 'exc': 'SystemExit'},
+           'op_ctrl_c': {'t': 'interrupt_now', 'exc': 'KeyboardInterrupt'}}
 
 
 def apply_faults(prog, faults):
@@ -260,10 +266,10 @@ class FaultRun(object):
         self.zoo.__exit__(None, None, None)
 
 
-def placements(ctx, prog, pair_seed, npairs_quick=25, npairs_thorough=120, kinds=None):
+def placements(ctx, prog, pair_seed, npairs_quick=25, npairs_thorough=120, kinds=None, extra=()):
     """[] + every single fault + a seeded sample of compatible pairs (all pairs for programs <= 3 steps, thorough)."""
     import random
-    faults = applicable_faults(prog, kinds)
+    faults = applicable_faults(prog, kinds, extra)
     out = [[]] + [[f] for f in faults]
     rnd = random.Random(pair_seed)
     pairs = [[a, b] for i, a in enumerate(faults) for b in faults[i + 1:] if compatible(a, b)]
